@@ -1226,6 +1226,10 @@ class SimplicialComplex:
 
         :param nss: a dict of order to sets of simplex indices of the added simplices"""
 
+        # nothing new, nothing to do
+        if len(nss) == 0:
+            return
+
         # work up the simplex orders
         k = 1
         maxk = max(nss.keys())
